@@ -14,8 +14,11 @@ FINISH = dict(level="proof", rule=(
     "ptrace_running / ptrace_in_sync / forkexec_in_sync / ns_in_sync (the launcher dies inside the sync callback), each with the kill delivered 0..200 ms after the announcement; programs are process trees of 7 tasks "
     "that ignore all signals.  Non-trivial: every crash point with a live program; distinct = distinct (point, delay)."))
 
+# steps of the tracer at which the controller is killed (n-th debug message of the tracer containing the text)
+STEPS = ["ptrace stopped#1", "------#2", "ptrace stopped#2", "------#3", "ptrace stop exec#1", "------#4", "------#6", "ptrace stop fork#1", "ptrace stop fork#3"]
+EARLY_STEPS = ["tracer started#1", "------#1", "set ptrace option#1"]
 POINTS = ["idle", "exec_running", "exec_running_after", "in_sync", "after_exec_returned", "file_ops", "init_command", "ptrace_running",
-          "ptrace_in_sync", "forkexec_in_sync", "ns_in_sync"]
+          "ptrace_in_sync", "forkexec_in_sync", "ns_in_sync", "ptrace_after_run"]
 
 
 def procs_with(token):
@@ -51,6 +54,10 @@ def run(c):
         delays = [0.0, 0.03] if c.quick() else [0.0, 0.005, 0.03, 0.1, 0.2, r.random() * 0.2, r.random() * 0.2]
         for d in delays:
             plan.append((pt, d))
+    for st in EARLY_STEPS + STEPS:
+        plan.append(("ptrace_step:" + st, 0.0))
+        if not c.quick():
+            plan.append(("ptrace_step:" + st, 0.02))
     for k, (pt, d) in enumerate(plan):
         token = "tok%d_%d_%d" % (os.getpid(), c.seed, k)
         p = subprocess.Popen([exe, pt, token, scratch], stdout=subprocess.PIPE, stderr=subprocess.DEVNULL)
@@ -97,7 +104,7 @@ def run(c):
             time.sleep(0.02)
         took = 3.0 - (deadline - time.time())
         c.count((pt, round(d, 3)), nontrivial=bool(before) or pt in ("idle", "file_ops"), klass=pt)
-        if pt not in ("idle", "file_ops", "after_exec_returned") and not before:
+        if pt not in ("idle", "file_ops", "after_exec_returned", "ptrace_after_run") and not before:
             c.finding_or_violation(canon("no sandboxed process was alive at the crash point (harness)"), {"announce": ann})
         if left or init_alive:
             c.finding_or_violation(canon("sandboxed processes survive the controller", survivors=len(left), init_alive=init_alive),
